@@ -208,12 +208,35 @@ def reachesSelf (univ : List LFile) (start : Str) : Nat → Str → Bool
     | none => false
     | some f => f.deps.any fun d => d = start || reachesSelf univ start fuel d
 
+/-- names of the files reached through imports from the work list (depth-first, bounded: every
+pop costs one unit of fuel); `seen` accumulates in visit order -/
+def reachNames (univ : List LFile) : Nat → List Str → List Str → List Str
+  | 0, _, seen => seen
+  | _ + 1, [], seen => seen
+  | fuel + 1, n :: rest, seen =>
+    if seen.contains n then reachNames univ fuel rest seen
+    else
+      match univ.find? (·.name = n) with
+      | none => reachNames univ fuel rest (seen ++ [n])
+      | some f => reachNames univ fuel (f.deps ++ rest) (seen ++ [n])
+
+/-- every file the link of `files` pulls in (`searchLinker.resolveFile` walks the imports and
+links each file into ONE `linker.Symbols`): the files themselves, then the imported files that
+are not among them -/
+def linkedSet (univ : List LFile) (files : List FileSkel) : List LFile :=
+  let fuel := (files.flatMap (·.deps)).length + (univ.flatMap (·.deps)).length + 1
+  let reach := reachNames univ fuel (files.flatMap (·.deps)) []
+  files.map (·.lfile) ++
+    reach.filterMap fun n => if files.any (·.name = n) then none else univ.find? (·.name = n)
+
 /-- the link step of `CompilePackage` for the files of one package.
-`others` = files of the other local packages reachable from it (already converted). -/
+`others` = files of the other local packages reachable from it (already converted): they are
+symbol tables here (their own type names are not re-resolved), but their symbols take part in the
+duplicate check like those of every linked file. -/
 def linkFiles (others : List LFile) (files : List FileSkel) : Outcome (List FileSkel) :=
   let univ := files.map (·.lfile) ++ others ++ builtinFiles
   if files.any (fun f => reachesSelf univ f.name univ.length f.name) then .err "import-cycle"
-  else if hasDup (files.flatMap fun f => f.lfile.syms.map (·.1)) then .err "duplicate-symbol"
+  else if hasDup ((linkedSet univ files).flatMap fun f => f.syms.map (·.1)) then .err "duplicate-symbol"
   else match files.mapM (linkFile univ) with
     | none => .err "link"
     | some fs => .ok fs
